@@ -30,7 +30,8 @@ def make_blobs():
     """blobs at fixed positions, produced by the implementation itself with a fresh cache holding the root key"""
     out = {}
     for name, (l0, l1, l2), sid in (("a55", (361, 5, 5), SID_A), ("a60", (361, 6, 0), SID_A), ("a31", (361, 31, 31), SID_A),
-                                    ("n55", (362, 5, 5), SID_A), ("b55", (361, 5, 5), SID_B), ("a77", (361, 7, 7), SID_A), ("a78", (361, 7, 8), SID_A)):
+                                    ("n55", (362, 5, 5), SID_A), ("b55", (361, 5, 5), SID_B), ("a77", (361, 7, 7), SID_A), ("a78", (361, 7, 8), SID_A),
+                                    ("a5v", (361, 5, 31), SID_A)):     # (5, 31) and (6, 0) are neighbours in the position order
         dc = fresh_dc()
         sim = clientsim.Sim(dc)
         with sim.world():
@@ -42,7 +43,7 @@ def make_blobs():
     return out
 
 
-ALPHABET = ["L", "Ua55", "Ua60", "Ua31", "Un55", "Ub55", "Ua77", "P", "Pn"]
+ALPHABET = ["L", "Ua55", "Ua60", "Ua31", "Un55", "Ub55", "Ua77", "Ua5v", "P", "Pn"]
 
 
 def covered_by_history(done_ops, op, blobs, dc_now):
@@ -156,7 +157,7 @@ def run(ctx):
     blobs = make_blobs()
     cases = []
     depth = 5 if ctx.thorough else 4
-    small = ["L", "Ua55", "Ua60", "Un55", "Ub55", "Ua77", "P", "Pn"]
+    small = ["L", "Ua55", "Ua60", "Un55", "Ub55", "Ua77", "Ua5v", "P", "Pn"]
     n = 0
     for d in range(1, depth + 1):
         if d <= 3:
